@@ -47,6 +47,41 @@ def enumerate_structures(work, name, maxn, ages, nhh, family, marriage, workers=
     return res, pops
 
 
+def _sim_one(job):
+    work, name, maxn, ages, nhh, family, marriage, num, seed = job
+    import glob
+    import shutil
+
+    cfg = tlc.SPEC_DIR / f"_gen_{name}_{seed}.cfg"
+    write_cfg(cfg, maxn, ages, nhh, family, marriage, invariants=("InvNesting", "InvPointers"))
+    d = Path(work) / f"sim_{name}_{seed}"
+    d.mkdir(parents=True, exist_ok=True)
+    try:
+        res = tlc.run("MC_Households", cfg.name, workdir=work, workers=1, simulate=f"file={d}/b,num={num}", depth=maxn + 1, seed=seed, timeout=3000)
+    finally:
+        cfg.unlink(missing_ok=True)
+    pops = []
+    for f in sorted(glob.glob(f"{d}/b_*")):
+        beh = tlaval.read_behaviour(f)
+        if beh:
+            pop = beh[-1][1].get("pop")
+            if pop and len(pop) == maxn:
+                pops.append(list(pop))
+    shutil.rmtree(d, ignore_errors=True)
+    return res, pops
+
+
+def simulate_structures(work, name, maxn, ages, nhh, family, marriage, num, seed, procs=NCPU):
+    """Random behaviours of MC_Households (`tlc -simulate`), one TLC per worker; returns the final populations."""
+    per = max(1, num // procs)
+    jobs = [(str(work), name, maxn, ages, nhh, family, marriage, per, seed * 100 + k + 1) for k in range(procs)]
+    outs = pool_map(_sim_one, jobs, procs=procs)
+    pops = [p for _, ps in outs for p in ps]
+    gen = sum(r.generated for r, _ in outs)
+    viol = [v for r, _ in outs for v in r.violated]
+    return gen, viol, pops
+
+
 def canon(ids):
     """Rename labels by first occurrence (a pure renaming: the induced partition is unchanged)."""
     m = {}
